@@ -82,6 +82,24 @@ def run(tier):
             if len(rep.advisory) < 8:
                 rep.advisory.append({"fn": e["fn"], "a": e["a"], "input": e["input"], "spec": s, "observed": e["res"]})
     rep.cov["advisory_mismatches"] += adv
+    # (3b) EVERY length of every variable-size field (the sites of MC_LenSweep), in-process: the boundaries are in the corpora above,
+    #      the interior of the length ranges is here (0 .. 2304 dense - 9000 thorough -, every multiple of 96 and 128 beyond)
+    dls, rls, sites = vlib.tlc_single(PROP, "lensites", "MC_LenSites", env={"VERIF_PROP": "none"}, workers=1, heap="2g", timeout=300, out_name="sites.ndjson")
+    rep.add_tlc("MC_LenSites", rls)
+    if len(sites) < 80:
+        raise vlib.ToolError("MC_LenSites emitted %d sites" % len(sites))
+    lso = os.path.join(dls, "lens.out.ndjson")
+    rc, err = vlib.run_harness(binary, ["lensweep-robust", os.path.join(dls, "sites.ndjson"), lso, "9000" if thorough else "2304"], timeout=3000)
+    m = re.search(r"lensweep-robust: (\d+) calls", err)
+    rep.count(int(m.group(1)) if m else 0)
+    for l in vlib.read_ndjson(lso):
+        if l["kind"] == "offender":
+            rep.violation("len:%s:site=%s:L=%s" % (l["fn"], l["site"], l["L"]), {"id": l["id"], "fn": l["fn"], "a": l["a"], "input": l["input"], "expect": {"k": "any"}, "pin": "none"},
+                          "Robust", l["res"], "observation invariant %s broken on a %d-byte input (a well-formed structure whose variable-size field has %d bytes; heap %d): %s" % (
+                              l["broken"], l["len"], l["L"], l["alloc"], l.get("fmt_panic") or l["res"].get("e", "")))
+        else:
+            for cls in l["classes"]:
+                rep.nontrivial((l["fn"], "len-site", l["site"], cls))
     # (4) the defragmenter under arbitrary call sequences (the C07 driver, under the same observation)
     dr = os.path.join(d, "defrag.ndjson")
     rc, _ = vlib.run_harness(binary, ["defrag-fuzz", str(vlib.seed() + 17), "8000" if thorough else "1500", "30", dr])
@@ -98,6 +116,27 @@ def run(tier):
             {"op": "parse_record", "ct": 21, "ver": 771, "data": [{"lit": [1, 0], "fill": [0, 0, 0]}]},
             {"op": "reset", "ct": 0, "ver": 0, "data": [{"lit": [], "fill": [0, 0, 0]}]},
             {"op": "parse_record", "ct": 24, "ver": 771, "data": [{"lit": [1, 255, 255], "fill": [0, 0, 0]}, {"lit": [], "fill": [2, 5, n]}]}]})
+    # first records LONGER than the message they start with, the message complete by its declared length but cut short inside
+    # (a list length reaching beyond the body): the one-shot parser answers Incomplete on a record that holds all of it
+    inner = {11: lambda h: [0, 0, 0][:0] + [((h + 100) >> 16) & 255, ((h + 100) >> 8) & 255, (h + 100) & 255],           # certificate list beyond the body
+             1: lambda h: [3, 3] + [7] * 32 + [0, 255, 254],                                                      # cipher list beyond the body
+             2: lambda h: [3, 3] + [7] * 32 + [0, 0, 47, 0, 255, 255],                                            # extensions beyond the body
+             4: lambda h: [0, 0, 1, 44, 255, 255],                                                                 # ticket beyond the body
+             22: lambda h: [1, 255, 255, 255]}                                                                     # OCSP response beyond the body
+    for dlen in (16389, 16640, 20000, 70000):
+        for mt, mk in sorted(inner.items()):
+            for h in sorted({16381, 16384, dlen - 5, dlen - 9}):
+                if not (16384 < 4 + h < dlen):
+                    continue
+                head = [mt, (h >> 16) & 255, (h >> 8) & 255, h & 255] + mk(h)
+                big.append({"id": "innertrunc:%d:%d:%d" % (dlen, mt, h), "ops": [
+                    {"op": "parse_record", "ct": 22, "ver": 771, "data": [{"lit": head, "fill": [0, 0, 0]}, {"lit": [], "fill": [9, 5, dlen - len(head)]}]},
+                    {"op": "parse_record", "ct": 22, "ver": 771, "data": [{"lit": [1, 2, 3], "fill": [0, 0, 0]}]},
+                    {"op": "parse_record", "ct": 22, "ver": 771, "data": [{"lit": [], "fill": [3, 1, 16384]}]},
+                    {"op": "parse_record", "ct": 21, "ver": 771, "data": [{"lit": [1, 0], "fill": [0, 0, 0]}]},
+                    {"op": "parse_record_nocopy", "ct": 22, "ver": 771, "data": [{"lit": [14, 0, 0, 0], "fill": [0, 0, 0]}]},
+                    {"op": "reset", "ct": 0, "ver": 0, "data": [{"lit": [], "fill": [0, 0, 0]}]},
+                    {"op": "parse_record", "ct": 22, "ver": 771, "data": [{"lit": [14, 0, 0, 0], "fill": [0, 0, 0]}]}]})
     bin_, bout = os.path.join(d, "defrag_big.in.ndjson"), os.path.join(d, "defrag_big.out.ndjson")
     vlib.write_ndjson(bin_, [{"id": r["id"], "prefix": [], "tests": r["ops"], "seq": True} for r in big])
     vlib.run_harness(binary, ["defrag", bin_, bout])
